@@ -35,6 +35,7 @@ type Proc struct {
 	Kind   string // z3 | z3-new | cvc5
 	cmd    *exec.Cmd
 	in     io.WriteCloser
+	w      *bufio.Writer
 	out    *bufio.Reader
 	Stats  Stats
 	Log    io.Writer // optional transcript
@@ -66,7 +67,7 @@ func Start(kind string, timeoutMs int) (*Proc, error) {
 	if err := cmd.Start(); err != nil {
 		return nil, err
 	}
-	p := &Proc{Kind: kind, cmd: cmd, in: in, out: bufio.NewReaderSize(out, 1<<16), tmoMs: timeoutMs}
+	p := &Proc{Kind: kind, cmd: cmd, in: in, w: bufio.NewWriterSize(in, 1<<16), out: bufio.NewReaderSize(out, 1<<16), tmoMs: timeoutMs}
 	if kind == "cvc5" {
 		p.Send("(set-logic ALL)")
 	}
@@ -79,6 +80,7 @@ func (p *Proc) Close() {
 		return
 	}
 	p.dead = true
+	p.w.Flush()
 	p.in.Close()
 	done := make(chan struct{})
 	go func() { p.cmd.Wait(); close(done) }()
@@ -94,11 +96,12 @@ func (p *Proc) Send(s string) {
 	if p.Log != nil {
 		fmt.Fprintln(p.Log, s)
 	}
-	io.WriteString(p.in, s)
-	io.WriteString(p.in, "\n")
+	p.w.WriteString(s)
+	p.w.WriteByte('\n')
 }
 
 func (p *Proc) readLine() (string, error) {
+	p.w.Flush()
 	s, err := p.out.ReadString('\n')
 	s = strings.TrimRight(s, "\r\n")
 	if p.Log != nil {
